@@ -52,7 +52,7 @@ func (s step) String() string {
 
 var stepKinds = []string{"connect", "bitfield", "have", "haveall", "havenone", "donthave", "unchoke", "choke",
 	"answer", "answer", "answer", "answer-short", "answer-empty", "answer-long", "answer-misplaced", "answer-unrequested",
-	"reject", "sleep", "sleep", "close", "want", "want", "unwant", "evict", "close+tick"}
+	"reject", "sleep", "sleep", "close", "want", "want", "unwant", "evict", "close+tick", "connect+close"}
 
 type world struct {
 	x       *sim.Tor
@@ -197,6 +197,21 @@ func run(rt *rapid.T, steps []step, g sim.Geometry) (fail string, w *world) {
 				rq = &v
 			}
 			r.SendExt(nil, rq, nil, "")
+		case "connect+close":
+			// a remote that goes away while storrent is still writing its first messages
+			if m.r != nil {
+				continue
+			}
+			if stats.Excl("c09-early-exit") {
+				stats.Excluded("c09-early-exit")
+				continue
+			}
+			r, err := x.Connect(sim.Caps{Fast: s.A%2 == 0, Extended: s.A%3 != 0, DHT: s.A%5 == 0}, m.id+1, false)
+			if err != nil {
+				return "connect: " + err.Error(), w
+			}
+			r.Close()
+			w.lab("connect-and-close-at-once")
 		case "bitfield":
 			if !connected {
 				continue
@@ -517,6 +532,23 @@ func TestReg_c09_stranded_peerrequest(t *testing.T) {
 		}
 		if leak != "" {
 			t.Fatalf("leak: %s", leak)
+		}
+	}
+}
+
+
+// a remote that closes while storrent writes its first messages: peer.Run
+// returned before its exit path was registered
+func TestReg_c09_peer_early_exit(t *testing.T) {
+	for k := 0; k < 200; k++ {
+		steps := []step{{Kind: "connect+close", P: 0, A: k}, {Kind: "sleep", D: time.Second}, {Kind: "connect+close", P: 1, A: k + 1}, {Kind: "sleep", D: time.Second}}
+		var fail string
+		leak := sim.Bubble(t, func() { fail, _ = run(nil, steps, sim.Geometry{PieceSize: 16384, Length: 4 * 16384, Seed: 1}) })
+		if fail != "" {
+			t.Fatalf("repetition %d: %s", k, fail)
+		}
+		if leak != "" {
+			t.Fatalf("repetition %d: goroutines left behind: %s", k, leak)
 		}
 	}
 }
